@@ -119,6 +119,45 @@ fn main() {
         }
         n += 1;
     }
+    // C19, crash points: for every pair of lists over the first 3 paths and EVERY prefix of the
+    // second compile's plan (the process is killed after k operations), a FRESH process (nothing
+    // remembered) compiles the second list again: the directory must be exactly that list. The
+    // first compile of every session also starts from a directory holding junk (a file where an
+    // entity directory will be, a directory where a root file will be, a stray file).
+    let mut crashes = 0usize;
+    let small: Vec<Vec<usize>> = (1..3usize.pow(3)).map(|mut c| (0..3).map(|_| { let d = c % 3; c /= 3; d }).collect()).collect();
+    for s1 in &small {
+        for s2 in &small {
+            let arts1 = artifacts(s1);
+            let arts2 = artifacts(s2);
+            // length of the second plan
+            let len = { let _ = fs::remove_dir_all(&root); fs::create_dir_all(&root).unwrap(); let mut fss = None;
+                let o1 = api_get_file_system_operations(&arts1, &dir, &mut fss); api_apply_file_system_operations(&o1, &arts1).map_err(|e| e.0).expect("first compile");
+                api_get_file_system_operations(&arts2, &dir, &mut fss).len() };
+            for k in 0..=len {
+                let _ = fs::remove_dir_all(&root);
+                fs::create_dir_all(dir.join("r.ts")).unwrap();          // a directory where a root file will be
+                fs::write(dir.join("A"), "junk").unwrap();              // a file where an entity directory will be
+                fs::write(dir.join("stray.txt"), "junk").unwrap();
+                let mut fss = None;
+                let o1 = api_get_file_system_operations(&arts1, &dir, &mut fss);
+                if let Err(e) = api_apply_file_system_operations(&o1, &arts1) { println!("DIFFERENT: first compile of {s1:?} on a directory holding junk fails: {}", e.0); std::process::exit(1); }
+                let o2 = api_get_file_system_operations(&arts2, &dir, &mut fss);
+                let _ = api_apply_file_system_operations(&o2[..k.min(o2.len())], &arts2);   // killed after k operations
+                let mut fresh = None;                                                        // a new process remembers nothing
+                let o3 = api_get_file_system_operations(&arts2, &dir, &mut fresh);
+                if let Err(e) = api_apply_file_system_operations(&o3, &arts2) { println!("DIFFERENT: lists {s1:?} then {s2:?}, killed after {k} of {len} operations: the fresh process fails: {}", e.0); std::process::exit(1); }
+                let (want_f, want_d) = expected(s2);
+                let (got_f, got_d) = snapshot(&dir);
+                if got_f != want_f || got_d != want_d {
+                    println!("DIFFERENT: lists {s1:?} then {s2:?} (paths {:?}), killed after {k} of {len} operations, fresh process: directory holds files {:?} dirs {:?}, wanted {:?} {:?}", (0..3).map(rel).collect::<Vec<_>>(), got_f.keys().collect::<Vec<_>>(), got_d, want_f.keys().collect::<Vec<_>>(), want_d);
+                    std::process::exit(1);
+                }
+                crashes += 1;
+            }
+        }
+    }
     let _ = fs::remove_dir_all(&root);
+    println!("crash points={crashes} (every prefix of the second plan, fresh process afterwards; first compiles start from junk)");
     println!("sessions={n} paths={paths} depth={depth}: after every compile the directory is exactly the artifact list, and later compiles touch only changed paths");
 }
